@@ -22,14 +22,15 @@ ASSUMPTIONS = ['histories cut inside dealing or showdown are not judged (the loa
                'hand number and player names are passed explicitly']
 
 
-def mk_game(cfg):
+def mk_game(cfg, cash=True):
     from ..configs import autos_of
     pk = env.pokerkit
     S = env.S
     autos = autos_of(cfg['autos'])
+    kw = {'mode': S.Mode.CASH_GAME} if cash else {}
     if cfg['code'] == 'NT':
-        return pk.NoLimitTexasHoldem(autos, True, 0, (1, 2), 2, mode=S.Mode.CASH_GAME)
-    return pk.FixedLimitTexasHoldem(autos, True, 0, (1, 2), 2, 4, mode=S.Mode.CASH_GAME)
+        return pk.NoLimitTexasHoldem(autos, True, 0, (1, 2), 2, **kw)
+    return pk.FixedLimitTexasHoldem(autos, True, 0, (1, 2), 2, 4, **kw)
 
 
 def bet_norm(ops):
@@ -52,6 +53,7 @@ class Proto:
         self.cfg = cfg
         self.game = game
         self.lines = set()
+        self.parse_game = mk_game(cfg, cash=False)
         self.skip = False       # shared prefix nodes of a split tree are judged by the first slice only
 
     def on_state(self, st, ms, menu, ctx):
@@ -115,7 +117,9 @@ class Proto:
             line = P.pluribus_line(ops, n, 7, pay, nl)
             stack = st.starting_stacks[0]
             try:
-                hs = list(H.from_acpc_protocol(self.game, stack, line, error_status=True))
+                # the parser is handed a game in the default (tournament) mode, as in the documentation's example: it must
+                # read the line as the cash-game protocol it is (free folds included)
+                hs = list(H.from_acpc_protocol(self.parse_game, stack, line, error_status=True))
             except Exception as exc:
                 sig = exc_signature(exc)
                 ctx.violation('parse-back-raised', f'{line}: {type(exc).__name__}: {exc}', sig=('C17', 'parse-back-raised') + sig[:2])
@@ -169,6 +173,9 @@ def cfgs(tier):
                               'RUNOUT_COUNT_SELECTION', 'HAND_KILLING', 'CHIPS_PUSHING', 'CHIPS_PULLING')]
         out.append(({'code': code, 'autos': manual, 'n': 2, 'stack': 6, 'raises': 'minmax', 'show': (None, True, False)}, 4 if th else 3, 'manual-showdown'))
         out.append(({'code': code, 'autos': manual, 'n': 3, 'stack': 6, 'raises': 'minmax', 'show': (None, True, False)}, 3 if th else 2, 'manual-showdown'))
+        # folds that face no bet (legal in cash games, warned about): the protocol writes them as f like any other fold
+        out.append(({'code': code, 'autos': 'ALL', 'n': 2, 'stack': 6, 'raises': 'minmax', 'fold_unfaced': True}, 4 if th else 3, 'unfaced-folds'))
+        out.append(({'code': code, 'autos': 'ALL', 'n': 3, 'stack': 6, 'raises': 'minmax', 'fold_unfaced': True}, 3 if th else 2, 'unfaced-folds'))
         nodeal = [a for a in manual if a not in ('HOLE_DEALING', 'BOARD_DEALING')]
         out.append(({'code': code, 'autos': nodeal, 'n': 2, 'stack': 6, 'raises': 'minmax', 'compress': False, 'deal': 'default'}, 2, 'uncompressed-dealing'))
         out.append(({'code': code, 'autos': nodeal, 'n': 3 if th else 2, 'stack': 6, 'raises': 'minmax', 'compress': True, 'deal': 'rich'}, 2, 'card-by-card-dealing'))
@@ -201,7 +208,8 @@ def run_job(job):
     env.set_warnings('ignore')
     game = mk_game(cfg)
     n = cfg['n']
-    o = mk_opts(raises=cfg['raises'], show=cfg.get('show', (None,)), runouts=(None,), deal=cfg.get('deal', 'default'))
+    o = mk_opts(raises=cfg['raises'], show=cfg.get('show', (None,)), runouts=(None,), deal=cfg.get('deal', 'default'),
+                fold_unfaced=cfg.get('fold_unfaced', False))
     mon = Proto(cfg, game)
     pc = job.get('prefix_choice')
     menu = None
